@@ -29,7 +29,18 @@ def build(repo, findings):
     f.wrap_arm(r'_ => return Err\("invalid digit"\)', hint, nth=0)
     f.before(r'^\s*return Err\("value too great for base"\);', hint)
     u.add(f)
+    # the action of rule decimal_literal: digits up to u64::MAX wrap into the signed range (bash: 18446744073709551615 is -1)
+    d = src.block_slice(r'^\s*s:\$\(\[\'1\'\.\.=\'9\'\] \[\'0\'\.\.=\'9\'\]\*\) \{\?$', "fn decimal_literal_action(s: &str) -> Result<i64, &'static str>", 'decimal_literal_action')
+    d.r1()
+    d.resub(r'\{\n\s*\?\s*\n', '{\n', 'R6', '`{?` marker of a fallible PEG action dropped (the block evaluates to a Result)', count=None)
+    d.resub(r'(\w+)\.parse::<u64>\(\)\.map\(\|(\w+)\| (.*)\)\.or\((Err\("[^"]*"\))\)', r'match parse_u64(\1) { Ok(\2) => Ok(\3), Err(_) => \4 }', 'R14', 'Result::map(closure).or(e) on str::parse::<u64>() -> match over the stub parse_u64 with the closure body in place', count=None)
+    d.sig('decimal_literal_action', ret='res', ensures=[
+        C('C07 a-decimal-literal-up-to-2-64-wraps-into-the-signed-range', "match dec_value_u64(s@) { Some(v) => res == Ok::<i64, &'static str>(v as i64), None => res is Err }"),
+    ])
+    u.add(d)
     u.raw(FOOTER)
+    u.assume('external_body', 'parse_u64 stands for str::parse::<u64>(): Ok with the value of the digits when it fits 64 bits, else Err (dec_value_u64 uninterpreted)')
+    u.assume('uninterp', 'dec_value_u64')
     u.assume('assume_specification', 'u64::cast_signed(a) == a as i64 (discharged by Kani over all u64 in the thorough tier)')
-    u.expected_min_fns = 2
+    u.expected_min_fns = 3
     return u
